@@ -470,7 +470,7 @@ impl<'a> CaseRunner<'a> {
     // The property's quantifier: "an abort only if a from-scratch build of all known tasks, in the current state, aborts
     // as well". When the from-scratch build aborts in EVERY evaluation order tried (the current state does contain a
     // violation, though the first one met is of another kind), pie's abort is not spurious in that sense.
-    if strict_orders > 0 && strict_aborted == strict_orders && ref_kinds.iter().any(|k| matches!(*k, "cycle" | "hidden-dependency" | "overlapping-write")) {
+    if strict_orders > 0 && strict_aborted == strict_orders && ref_kinds.iter().any(|k| matches!(*k, "cycle" | "hidden-dependency" | "overlapping-write" | "user-panic")) {
       self.rep.count("aborts_in_states_where_every_from_scratch_build_aborts_with_another_diagnosis");
       return None;
     }
